@@ -31,13 +31,17 @@ var callStackCeiling = 2000
 type engine struct {
 	enabledFeatures   api.CoreFeatures
 	compiledFunctions map[wasm.ModuleID][]compiledFunction // guarded by mutex.
+	// compiledFunctionsRefs counts the CompileModule calls per entry of compiledFunctions which have not been matched
+	// by DeleteCompiledModule yet: modules with the same ID (same binary and settings) share one entry. Guarded by mutex.
+	compiledFunctionsRefs map[wasm.ModuleID]int
 	mux               sync.RWMutex
 }
 
 func NewEngine(_ context.Context, enabledFeatures api.CoreFeatures, _ filecache.Cache) wasm.Engine {
 	return &engine{
 		enabledFeatures:   enabledFeatures,
-		compiledFunctions: map[wasm.ModuleID][]compiledFunction{},
+		compiledFunctions:     map[wasm.ModuleID][]compiledFunction{},
+		compiledFunctionsRefs: map[wasm.ModuleID]int{},
 	}
 }
 
@@ -46,6 +50,7 @@ func (e *engine) Close() (err error) {
 	e.mux.Lock()
 	defer e.mux.Unlock()
 	clear(e.compiledFunctions)
+	clear(e.compiledFunctionsRefs)
 	return
 }
 
@@ -64,13 +69,33 @@ func (e *engine) DeleteCompiledModule(m *wasm.Module) {
 func (e *engine) deleteCompiledFunctions(module *wasm.Module) {
 	e.mux.Lock()
 	defer e.mux.Unlock()
+	// The entry is shared by every compilation of the same ID: it goes away with the last one.
+	if refs := e.compiledFunctionsRefs[module.ID]; refs > 1 {
+		e.compiledFunctionsRefs[module.ID] = refs - 1
+		return
+	}
+	delete(e.compiledFunctionsRefs, module.ID)
 	delete(e.compiledFunctions, module.ID)
 }
 
 func (e *engine) addCompiledFunctions(module *wasm.Module, fs []compiledFunction) {
 	e.mux.Lock()
 	defer e.mux.Unlock()
-	e.compiledFunctions[module.ID] = fs
+	if _, ok := e.compiledFunctions[module.ID]; !ok { // otherwise a concurrent compilation of the same ID won.
+		e.compiledFunctions[module.ID] = fs
+	}
+	e.compiledFunctionsRefs[module.ID]++
+}
+
+// retainCompiledFunctions returns true if the module is already compiled, counting one more user of the entry.
+func (e *engine) retainCompiledFunctions(module *wasm.Module) bool {
+	e.mux.Lock()
+	defer e.mux.Unlock()
+	if _, ok := e.compiledFunctions[module.ID]; !ok {
+		return false
+	}
+	e.compiledFunctionsRefs[module.ID]++
+	return true
 }
 
 func (e *engine) getCompiledFunctions(module *wasm.Module) (fs []compiledFunction, ok bool) {
@@ -361,7 +386,7 @@ const callFrameStackSize = 0
 
 // CompileModule implements the same method as documented on wasm.Engine.
 func (e *engine) CompileModule(_ context.Context, module *wasm.Module, listeners []experimental.FunctionListener, ensureTermination bool) error {
-	if _, ok := e.getCompiledFunctions(module); ok { // cache hit!
+	if e.retainCompiledFunctions(module) { // cache hit!
 		return nil
 	}
 
